@@ -39,8 +39,8 @@ pub fn validate_reference() -> Result<usize, String> {
     let mut n = 0usize;
     for (suite, dir) in [(SuiteId::Sha256, "bls12-381-sha-256"), (SuiteId::Shake256, "bls12-381-shake-256")] {
         let r = Ref::new(suite);
-        let base = format!("{}/fixtures/bbs/{}", crate::engine::VERIF_DIR, dir);
-        let bbase = format!("{}/fixtures/bbs_blind/{}", crate::engine::VERIF_DIR, dir);
+        let base = format!("{}/fixtures/bbs/{}", crate::engine::verif_dir(), dir);
+        let bbase = format!("{}/fixtures/bbs_blind/{}", crate::engine::verif_dir(), dir);
         let api = r.api_id();
 
         ensure!(r.p1() == r.p1_derived(), "{}: P1 constant differs from its derivation", dir);
@@ -188,7 +188,7 @@ pub fn validate_reference() -> Result<usize, String> {
         }
 
         // blind: proofs
-        let all = load(&format!("{}/fixtures/bbs_blind/messages.json", crate::engine::VERIF_DIR))?;
+        let all = load(&format!("{}/fixtures/bbs_blind/messages.json", crate::engine::verif_dir()))?;
         let all_msgs = msgs_of(&all["messages"]);
         let all_cm = msgs_of(&all["committedMessages"]);
         for i in 1..=8 {
